@@ -84,7 +84,10 @@ func Junk() []junkT {
 		{"ptr", Ptr(tInt)}, {"map", Map(tStr, tInt)}, {"mapset", Map(tInt, tEmptySt)}, {"array", Array(2, tInt)},
 		{"struct", Struct(tInt, tStr)}, {"struct0", tEmptySt}, {"named-struct", nsPlain()}, {"ptr-named-struct", Ptr(nsPlain())},
 		{"chan", Chan(0, tInt)}, {"recvchan", Chan(2, tInt)}, {"sendchan", Chan(1, tInt)}, {"chanchan", Chan(2, Chan(2, tInt))},
-		{"slice-chan", Slice(Chan(2, tInt))},
+		{"slice-chan", Slice(Chan(2, tInt))}, {"slice-bichan", Slice(Chan(0, tInt))}, {"slice-sendchan", Slice(Chan(1, tInt))},
+		{"bichan-of-bichan", Chan(0, Chan(0, tInt))}, {"recvchan-of-bichan", Chan(2, Chan(0, tInt))},
+		{"sendchan-of-recvchan", Chan(1, Chan(2, tInt))}, {"recvchan-of-sendchan", Chan(2, Chan(1, tInt))},
+		{"func-bichan", Sig(L(tInt), L(Chan(0, tStr)))}, {"func-sendchan", Sig(L(tInt), L(Chan(1, tStr)))},
 		{"func0", Sig(nil, nil)}, {"pred", Sig(L(tInt), L(tBool))}, {"variadic-pred", VSig(L(Slice(tInt)), L(tBool))},
 		{"variadic2", VSig(L(tInt, Slice(tStr)), L(tBool))},
 		{"func2", Sig(L(tInt, tStr), L(tBool))}, {"func-err", f0(tInt)}, {"func1-err", Sig(L(tInt), L(tStr, tErr))},
@@ -95,6 +98,9 @@ func Junk() []junkT {
 		{"unsafeptr", tUnsafe},
 		{"nil", tNil}, {"u-int", B("u-int")}, {"u-string", B("u-string")}, {"u-bool", B("u-bool")}, {"u-float", B("u-float")},
 		{"u-rune", B("u-rune")},
+		// (no u-complex here: whether the constant 1i is representable in the parameter type the
+		// plugin infers from ANOTHER argument, e.g. deriveMin([]int, 1i), depends on its value, and the
+		// ill-typed call is the user's; it is used where the constant alone decides the type, see UntypedArgs)
 		{"tuple-int-err", Tuple(tInt, tErr)}, {"tuple-func-err", Tuple(f0(tInt), tErr)}, {"tuple3", Tuple(tInt, tStr, tBool)},
 	}
 }
@@ -274,6 +280,8 @@ func Cases(r *hx.Rand, tier string) []Case {
 			}
 		}
 	}
+	must = append(must, Directions()...)
+	must = append(must, UntypedArgs()...)
 	// depth 2 of the main forms over the supported leaf int (the expected-ok side): always
 	for _, f := range forms {
 		if !mainForm[f.name] {
@@ -297,6 +305,64 @@ func Cases(r *hx.Rand, tier string) []Case {
 		n = len(pool)
 	}
 	return append(must, pool[:n]...)
+}
+
+// Directions: every direction of every channel the combinators receive from (dup, fmap, join in its
+// four channel forms, pipeline): a channel that cannot be received from has to be reported, the
+// other ones have to give code that type-checks with the user's call (C09-fix-send-only-channel).
+func Directions() []Case {
+	var out []Case
+	add := func(p string, args ...*Ty) { out = append(out, Case{Plugin: p, Args: args, Class: "chandir"}) }
+	f := Sig(L(tInt), L(tStr))
+	for d := 0; d < 3; d++ {
+		add("dup", Chan(d, tInt))
+		add("fmap", f, Chan(d, tInt))
+		add("join", Slice(Chan(d, tInt)))
+		add("join", Chan(2, tInt), Chan(0, tInt), Chan(d, tInt))
+		for e := 0; e < 3; e++ {
+			add("join", Chan(d, Chan(e, tInt)))
+			add("join", Chan(d, tInt), Chan(e, tInt))
+			add("dup", Chan(d, Chan(e, tInt)))
+			add("pipeline", Sig(L(tInt), L(Chan(d, tStr))), Sig(L(tStr), L(Chan(e, tF64))))
+		}
+	}
+	return out
+}
+
+// UntypedArgs: untyped constants handed to the plugins that print the type of their argument, and to
+// the plugins that only use them as values of a type known from another argument
+// (C09-fix-untyped-constant-argument: nil is reported by hash, gostring and tuple; clone takes the
+// default type; everything that worked keeps working).
+func UntypedArgs() []Case {
+	var out []Case
+	add := func(p string, args ...*Ty) { out = append(out, Case{Plugin: p, Args: args, Class: "untyped"}) }
+	for _, k := range []string{"u-nil", "u-int", "u-string", "u-bool", "u-float", "u-rune", "u-complex"} {
+		u := B(k)
+		for _, p := range []string{"hash", "gostring", "clone", "keys", "set", "sort", "unique", "tuple", "equal", "compare"} {
+			add(p, u)
+		}
+		add("tuple", tInt, u)
+		add("tuple", u, tNil)
+		add("tuple", u, B("u-string"), u)
+		for _, p := range []string{"equal", "compare", "deepcopy", "min", "max"} {
+			add(p, u, u)
+		}
+	}
+	ptr := Ptr(nsPlain())
+	add("contains", Slice(ptr), tNil)
+	add("contains", Slice(tInt), B("u-int"))
+	add("contains", Slice(tStr), B("u-string"))
+	add("contains", Slice(tF64), B("u-int"))
+	add("apply", Sig(L(tInt, ptr), L(tBool)), tNil)
+	add("apply", Sig(L(tInt, tF64), L(tBool)), B("u-int"))
+	add("apply", Sig(L(tInt, tStr), L(tBool)), B("u-string"))
+	for _, p := range []string{"min", "max"} {
+		add(p, Slice(ptr), tNil)
+		add(p, Slice(tF64), B("u-int"))
+		add(p, Slice(tStr), B("u-string"))
+	}
+	add("fmap", Sig(L(tI32), L(tBool)), B("u-string"))
+	return out
 }
 
 // Twins: packages with the same call twice, on two distinct named types with the same underlying
